@@ -356,6 +356,41 @@ class Model:
                     stack.append((p, w))
         return frozenset(out)
 
+    def assigned_before(self, preds, node, var):
+        """(some path from the start reaches `node` without any assignment statement to
+        `var`, some path passes one) — purely syntactic: `x = y` counts as an assignment of x
+        whatever y holds.  Used for the wording of the diagnostic only."""
+        seen = set()
+        stack = [node]
+        unassigned = assigned = False
+        while stack:
+            m = stack.pop()
+            if m in seen:
+                continue
+            seen.add(m)
+            if m == self.start.idx:
+                unassigned = True
+                continue
+            for p in preds[m]:
+                a = self.nodes[p].assign
+                if a is not None and a[0] == var:
+                    assigned = True
+                else:
+                    stack.append(p)
+        return unassigned, assigned
+
+    def label_ok(self, read, label):
+        """Is the wording ('might' be undefined = an assignment statement lies on some path to
+        the use / 'isnot' defined = on none) right for this read?  Only judged for reads that
+        are reachable with literal conditions folded (None otherwise)."""
+        if not read.live_lit:
+            return None
+        res = []
+        for preds, have in ((self.predsL, True), (self.predsA, read.live_all)):
+            if have:
+                res.append(self.assigned_before(preds, read.node, read.var)[1])
+        return any(res) if label == "might" else not all(res)
+
     def _finish(self):
         N = self.nodes
         all_succ = lambda n: n.succ  # noqa: E731
@@ -374,6 +409,7 @@ class Model:
         pL = self._preds(lit_succ, self.live_lit)
         pM = self._preds(may_succ, self.live_may)
         self.predsA = pA
+        self.predsL = pL
         for r in self.reads:
             r.live_all = r.node in self.live_all
             r.live_lit = r.node in self.live_lit
